@@ -8,7 +8,7 @@
    [purity_s], [purity_i] are Re tr((F F^dagger)^2)/(tr F F^dagger)^2 and Re tr((F^dagger F)^2)/(tr F^dagger F)^2 of the
    sampled matrix F(s,i) = F[get_1d_index(s,i,n)]; [ts_rates_Q0], [purity_s_Q] are the executable rational instances. *)
 From Coq Require Import Reals QArith Lra List.
-From SpdVerif Require Import Model.FinSum Model.Hom Model.Hom2 Proofs.FinSum_lemmas Proofs.Cx_lemmas Proofs.CMat Proofs.C10_sums
+From SpdVerif Require Import Model.FinSum Model.Hom Model.Hom2 Model.C10_Pyth Proofs.C10_pyth Proofs.FinSum_lemmas Proofs.Cx_lemmas Proofs.CMat Proofs.C10_sums
   Proofs.C10_svd Proofs.C10_expand Proofs.C10_identical Proofs.C10_setup Proofs.C10_exec Proofs.C10_sharp Proofs.C10_si_char Proofs.C10_scale Gen.HomSrc Proofs.C10_src.
 Local Open Scope R_scope.
 
@@ -179,6 +179,19 @@ Theorem C10_source_free_function : forall same J1 J2 a b ls1 li1 ls2 li2 n,
   src_ts_visibilities same J1 J2 a b ls1 li1 ls2 li2 n = setup_ts_visibilities same J1 J2 a b ls1 li1 ls2 li2 n.
 Proof. exact src_ts_free_function. Qed.
 
+(* the non-zero-delay twin: on arithmetic axes (signal x0 + s h, idler x0 + k h + r i h, n >= 2 points, h <> 0) and the delay
+   m0 atan(4/3) / h every phase factor is the rational (3/5 + 4/5 i)^m, and the rational instance equals the real-valued rates *)
+Theorem C10_pyth_twin : forall (n : nat) (x0 h : R) (k r m0 : Z),
+  (1 < n)%nat -> h <> 0 ->
+  forall l : list (list (cx Q)),
+  jsi_norm ROps (n * n) (first_s1_i1 (ts_R l)) * jsi_norm ROps (n * n) (second_s2_i2 (ts_R l)) <> 0 ->
+  let g := axes_grid (pyth_ls n x0 h) (pyth_li n x0 h k r) n in
+  let '(ss, ii, si) := ts_rates_Qpyth n l m0 k r in
+  Q2R ss = ts_rate_ss ROps n (ts_R l) (ts_phase_ss g g (pyth_delay m0 h)) /\
+  Q2R ii = ts_rate_ii ROps n (ts_R l) (ts_phase_ii g g (pyth_delay m0 h)) /\
+  Q2R si = ts_rate_si ROps n (ts_R l) (ts_phase_si g g (pyth_delay m0 h)).
+Proof. exact ts_rates_Qpyth_correct. Qed.
+
 (* ---- non-vacuity *)
 Example C10_nonvacuous_norm : jsi_norm ROps (2 * 2) (fun _ => (1, 0)) <> 0.
 Proof. unfold jsi_norm, cnorm2. cbn. lra. Qed.
@@ -219,5 +232,6 @@ Print Assumptions C10_range_same_axes.
 Print Assumptions C10_source_is_model.
 Print Assumptions C10_source_wrappers.
 Print Assumptions C10_source_free_function.
+Print Assumptions C10_pyth_twin.
 Print Assumptions C10_exec_twin.
 Print Assumptions C10_exec_twin_purity.
